@@ -1,4 +1,166 @@
 //! Self-tests: kernel premises the oracles rely on (real calls, no simulation).
+//! If a premise fails the oracles would be wrong, so the checks must not speak (exit 2).
+use crate::sim::raw6;
+use std::sync::atomic::Ordering::SeqCst;
+
+unsafe fn pair() -> (i32, i32) {
+    let mut sv = [0i32; 2];
+    let r = raw6(libc::SYS_socketpair, libc::AF_UNIX as i64, (libc::SOCK_SEQPACKET | libc::SOCK_CLOEXEC) as i64, 0, sv.as_mut_ptr() as i64, 0, 0);
+    assert!(r == 0);
+    (sv[0], sv[1])
+}
+unsafe fn send_fd(sock: i32, fd: i32) -> i64 {
+    let mut data = [7u8; 8];
+    let mut iov = libc::iovec { iov_base: data.as_mut_ptr() as *mut _, iov_len: 8 };
+    let mut cbuf = [0u64; 4];
+    let mut m: libc::msghdr = std::mem::zeroed();
+    m.msg_iov = &mut iov;
+    m.msg_iovlen = 1;
+    m.msg_control = cbuf.as_mut_ptr() as *mut _;
+    m.msg_controllen = 24;
+    let c = cbuf.as_mut_ptr() as *mut u8;
+    *(c as *mut usize) = 20;
+    *(c.add(8) as *mut i32) = libc::SOL_SOCKET;
+    *(c.add(12) as *mut i32) = libc::SCM_RIGHTS;
+    *(c.add(16) as *mut i32) = fd;
+    raw6(libc::SYS_sendmsg, sock as i64, &m as *const _ as i64, 0, 0, 0, 0)
+}
+extern "C" fn on_sigpipe(_: i32) {
+    crate::sim::SIGPIPES.fetch_add(1, SeqCst);
+}
+
+pub fn premises() -> Vec<String> {
+    let mut bad = vec![];
+    unsafe {
+        // 1. packet boundaries and FIFO order
+        let (a, b) = pair();
+        for i in 1..=5u8 {
+            let buf = vec![i; i as usize * 10];
+            assert!(raw6(libc::SYS_sendto, a as i64, buf.as_ptr() as i64, buf.len() as i64, 0, 0, 0) == buf.len() as i64);
+        }
+        for i in 1..=5u8 {
+            let mut buf = [0u8; 256];
+            let n = raw6(libc::SYS_recvfrom, b as i64, buf.as_mut_ptr() as i64, 256, 0, 0, 0);
+            if n != i as i64 * 10 || buf[0] != i {
+                bad.push(format!("SEQPACKET boundary/order: packet {} came back with len {} first byte {}", i, n, buf[0]));
+            }
+        }
+        // 2. send to a closed peer: EPIPE, no SIGPIPE (handler installed: the default disposition would kill us)
+        let mut sa: libc::sigaction = std::mem::zeroed();
+        sa.sa_sigaction = on_sigpipe as *const () as usize;
+        libc::sigaction(libc::SIGPIPE, &sa, std::ptr::null_mut());
+        raw6(libc::SYS_close, b as i64, 0, 0, 0, 0, 0);
+        let buf = [1u8; 4];
+        let r = raw6(libc::SYS_sendto, a as i64, buf.as_ptr() as i64, 4, 0, 0, 0);
+        if r != -(libc::EPIPE as i64) {
+            bad.push(format!("send to closed SEQPACKET peer returned {} (expected -EPIPE)", r));
+        }
+        if crate::sim::SIGPIPES.load(SeqCst) != 0 {
+            bad.push("send to closed SEQPACKET peer raised SIGPIPE".into());
+        }
+        raw6(libc::SYS_close, a as i64, 0, 0, 0, 0, 0);
+        // 3. closing a socket releases descriptors queued in it synchronously
+        let mut late = 0;
+        for _ in 0..500 {
+            let (ca, cb) = pair(); // carrier
+            let (xa, xb) = pair(); // carried channel: xa = sender end, xb = receiver end
+            assert!(send_fd(ca, xa) > 0);
+            raw6(libc::SYS_close, xa as i64, 0, 0, 0, 0, 0);
+            let mut buf = [0u8; 8];
+            let r = raw6(libc::SYS_recvfrom, xb as i64, buf.as_mut_ptr() as i64, 8, libc::MSG_DONTWAIT as i64, 0, 0);
+            if r != -(libc::EAGAIN as i64) {
+                bad.push(format!("in-transit sender does not keep channel open (recv gave {})", r));
+            }
+            raw6(libc::SYS_close, cb as i64, 0, 0, 0, 0, 0);
+            raw6(libc::SYS_close, ca as i64, 0, 0, 0, 0, 0);
+            let r = raw6(libc::SYS_recvfrom, xb as i64, buf.as_mut_ptr() as i64, 8, libc::MSG_DONTWAIT as i64, 0, 0);
+            if r != 0 {
+                late += 1;
+            }
+            raw6(libc::SYS_close, xb as i64, 0, 0, 0, 0, 0);
+        }
+        if late > 0 {
+            bad.push(format!("descriptors queued in a closed socket were not released synchronously in {}/500 trials", late));
+        }
+        // 4. SO_SNDBUF: doubled, minimum 4608; largest packet = SO_SNDBUF - 32
+        for req in [1i32, 2304, 4096, 8192, 50000] {
+            let (a, b) = pair();
+            raw6(libc::SYS_setsockopt, a as i64, libc::SOL_SOCKET as i64, libc::SO_SNDBUF as i64, &req as *const _ as i64, 4, 0);
+            let mut got: i32 = 0;
+            let mut l: u32 = 4;
+            raw6(libc::SYS_getsockopt, a as i64, libc::SOL_SOCKET as i64, libc::SO_SNDBUF as i64, &mut got as *mut _ as i64, &mut l as *mut _ as i64, 0);
+            let want = (req as i64 * 2).max(4608);
+            if got as i64 != want {
+                bad.push(format!("SO_SNDBUF {} -> {} (expected {})", req, got, want));
+            }
+            let big = vec![3u8; got as usize];
+            let ok = raw6(libc::SYS_sendto, a as i64, big.as_ptr() as i64, (got - 32) as i64, libc::MSG_DONTWAIT as i64, 0, 0);
+            if ok != (got - 32) as i64 {
+                bad.push(format!("packet of SO_SNDBUF-32 = {} bytes refused: {}", got - 32, ok));
+            }
+            let mut sink = vec![0u8; got as usize];
+            raw6(libc::SYS_recvfrom, b as i64, sink.as_mut_ptr() as i64, sink.len() as i64, 0, 0, 0);
+            let over = raw6(libc::SYS_sendto, a as i64, big.as_ptr() as i64, (got - 31) as i64, libc::MSG_DONTWAIT as i64, 0, 0);
+            if over != -(libc::EMSGSIZE as i64) {
+                bad.push(format!("packet of SO_SNDBUF-31 bytes gave {} (expected -EMSGSIZE)", over));
+            }
+            raw6(libc::SYS_close, a as i64, 0, 0, 0, 0, 0);
+            raw6(libc::SYS_close, b as i64, 0, 0, 0, 0, 0);
+        }
+        // 5. a control buffer that is too small reports MSG_CTRUNC
+        let (a, b) = pair();
+        let (x, y) = pair();
+        assert!(send_fd(a, x) > 0);
+        let mut data = [0u8; 8];
+        let mut iov = libc::iovec { iov_base: data.as_mut_ptr() as *mut _, iov_len: 8 };
+        let mut cbuf = [0u64; 2];
+        let mut m: libc::msghdr = std::mem::zeroed();
+        m.msg_iov = &mut iov;
+        m.msg_iovlen = 1;
+        m.msg_control = cbuf.as_mut_ptr() as *mut _;
+        m.msg_controllen = 16;
+        let r = raw6(libc::SYS_recvmsg, b as i64, &mut m as *mut _ as i64, 0, 0, 0, 0);
+        if r != 8 || m.msg_flags & libc::MSG_CTRUNC == 0 {
+            bad.push(format!("truncated control message not flagged (r={} flags={:x})", r, m.msg_flags));
+        }
+        for fd in [a, b, x, y] {
+            raw6(libc::SYS_close, fd as i64, 0, 0, 0, 0, 0);
+        }
+        // 6. edge-triggered epoll reports a socket again after new data arrives
+        let ep = raw6(libc::SYS_epoll_create1, libc::EPOLL_CLOEXEC as i64, 0, 0, 0, 0, 0) as i32;
+        let (a, b) = pair();
+        let mut ev = libc::epoll_event { events: (libc::EPOLLIN | libc::EPOLLET) as u32, u64: 42 };
+        raw6(libc::SYS_epoll_ctl, ep as i64, libc::EPOLL_CTL_ADD as i64, b as i64, &mut ev as *mut _ as i64, 0, 0);
+        let one = [1u8; 1];
+        raw6(libc::SYS_sendto, a as i64, one.as_ptr() as i64, 1, 0, 0, 0);
+        let mut evs = [libc::epoll_event { events: 0, u64: 0 }; 4];
+        let n1 = raw6(libc::SYS_epoll_wait, ep as i64, evs.as_mut_ptr() as i64, 4, 0, 0, 0);
+        let n2 = raw6(libc::SYS_epoll_wait, ep as i64, evs.as_mut_ptr() as i64, 4, 0, 0, 0);
+        raw6(libc::SYS_sendto, a as i64, one.as_ptr() as i64, 1, 0, 0, 0);
+        let n3 = raw6(libc::SYS_epoll_wait, ep as i64, evs.as_mut_ptr() as i64, 4, 0, 0, 0);
+        if !(n1 == 1 && n2 == 0 && n3 == 1) {
+            bad.push(format!("edge-triggered epoll premise: got {},{},{} (expected 1,0,1)", n1, n2, n3));
+        }
+        for fd in [a, b, ep] {
+            raw6(libc::SYS_close, fd as i64, 0, 0, 0, 0, 0);
+        }
+    }
+    bad
+}
+
 pub fn run(_args: &[String]) -> i32 {
-    0
+    if cfg!(feature = "inproc") {
+        println!("selftest: in-process build has no kernel premises");
+        return 0;
+    }
+    let bad = premises();
+    if bad.is_empty() {
+        println!("selftest: kernel premises hold (boundaries+FIFO, EPIPE without SIGPIPE, synchronous release of queued descriptors 500/500, SO_SNDBUF arithmetic, MSG_CTRUNC, edge-triggered epoll)");
+        0
+    } else {
+        for b in &bad {
+            println!("PREMISE-FAILED: {}", b);
+        }
+        2
+    }
 }
